@@ -76,7 +76,7 @@ def main():
     graphs = [(2, 2, 1), (3, 2, 1)] if tier == 'quick' else [(2, 2, 2), (3, 2, 1), (2, 3, 1)]     # (3,3,1) and (4,2,1) exceed 80 000 paths (measured)
     for N, Kf, ql in graphs:
         cands += K.k_input_recursion(R, N, Kf, ql)
-    frs = [(2, 2)] if tier == 'quick' else [(2, 2), (3, 2), (2, 3)]
+    frs = [(2, 2)] if tier == 'quick' else [(2, 2), (2, 3)]      # (3,2): the cycle query over 3 fragments does not finish (solver unknown after 120 s)
     for F, S in frs:
         cands += K.k_fragment_is_recursive(R, F, S)
     # Box at the use sites inside interface / union variants: F1 recursive, every embedding of it boxed and nothing else
